@@ -166,9 +166,15 @@ def gen(rng, tier):
         smp = None
         if rng.random() < 0.5:
             smp = rng.sample(samples, rng.randint(2, NS))
-            if rng.random() < 0.3:
+            if rng.random() < (0.6 if c["pgen"] else 0.3):
                 # an unknown sample: unrelated, or a longer name that begins with a known one
-                smp.append(rng.choice(["ghost", "ghost", "s12", "s0_extra", "twin A2"]))
+                smp.append(rng.choice(["ghost", "twin A2", "twin A2", "s0_extra", "s12"]))  # "twin A2" is longer than every name in the file
+                if smp[-1] == "twin A2" and "twin A" in smp and len(smp) > 2:
+                    smp.remove("twin A")  # the known name it extends is not requested itself
+        if t % 20 == 1 and k in ("transform", "ld", "simphenotype"):
+            # PGEN input and an unknown sample that is longer than every name in the file and begins with one of them
+            c["pgen"] = True
+            smp = rng.sample(SAMPLES[:-1], 2) + ["twin A2"]
         c["samples"] = smp
         c["sort"] = rng.random() < 0.6
         # further options that must reach the entry point unchanged (each on its own is exercised elsewhere)
